@@ -347,7 +347,25 @@ func c20HandBack(c *Ctx) {
 			ap := ssax.Path(polyStore.Addr)
 			r.Check(ssax.Path(polyStore.Val) == "operation.ExtraData" && strings.Contains(ap, "GetFSMInstance(operation.DKGIdentifier") || strings.Contains(ap, "GetFSMInstance(conv<string>(operation.DKGIdentifier)"), "C20/R4", "node.executeOperation:write-back-value", "exactly operation.ExtraData is written into the polynomial of round operation.DKGIdentifier", c.PosOf(polyStore), ap+" := "+ssax.Path(polyStore.Val))
 			sa := saves[0].Common().Args
-			r.Check(strings.HasSuffix(ssax.Path(sa[len(sa)-2]), "operation.DKGIdentifier") && strings.Contains(ssax.Path(sa[len(sa)-1]), ".Dump()") && !ssax.ReachableAvoiding(ex, saves[0], nil, []ssa.Instruction{polyStore}), "C20/R4", "node.executeOperation:write-back-save", "that round is dumped after the update and saved under its own id", c.PosOf(saves[0]), "SaveFSM("+ssax.Path(sa[len(sa)-2])+", "+ssax.Path(sa[len(sa)-1])+")")
+			// the bytes saved are a dump taken AFTER the polynomial was written: every Dump() call that can supply the saved
+			// value lies behind the store
+			dumpAfter := false
+			for _, lf := range ssax.Leaves(sa[len(sa)-1], saves[0].(ssa.Instruction)) {
+				v := lf.V
+				if exv, isEx := v.(*ssa.Extract); isEx {
+					v = exv.Tuple
+				}
+				dc, isCall := v.(*ssa.Call)
+				if !isCall || !strings.HasSuffix(ssax.FuncID(ssax.CalleeObj(dc)), "state_machines.(FSMInstance).Dump") {
+					dumpAfter = false
+					break
+				}
+				dumpAfter = !ssax.ReachableAvoiding(ex, dc, nil, []ssa.Instruction{polyStore})
+				if !dumpAfter {
+					break
+				}
+			}
+			r.Check(strings.HasSuffix(ssax.Path(sa[len(sa)-2]), "operation.DKGIdentifier") && strings.Contains(ssax.Path(sa[len(sa)-1]), ".Dump()") && dumpAfter && !ssax.ReachableAvoiding(ex, saves[0], nil, []ssa.Instruction{polyStore}), "C20/R4", "node.executeOperation:write-back-save", "that round is dumped after the update and saved under its own id", c.PosOf(saves[0]), "SaveFSM("+ssax.Path(sa[len(sa)-2])+", "+ssax.Path(sa[len(sa)-1])+sprintf("); dump taken after the polynomial was written: %v", dumpAfter))
 		}
 	}
 }
